@@ -19,6 +19,7 @@
    longjmp, no -t/-F/-N/-T options.  This file has NO proofs (it is run by vm_compute).     *)
 From Coq Require Import NArith List Bool.
 Import ListNotations.
+Require Import UV.Gen.TimeUnit.
 Local Open Scope N_scope.
 
 (* ------------------------------------------------------------------ records and tasks *)
@@ -319,7 +320,7 @@ Definition replay_raw (c : cfg) (sel : option (list nat)) (tasks : list task) : 
 
 (* ------------------------------------------------------------------ presentation *)
 (* print_time_unit: 0 = blank, otherwise unit*10^6 + whole*1000 + fraction *)
-Definition time_limits : list N := [1000; 1000; 1000; 60; 24].
+Definition time_limits : list N := TIME_UNIT_LIMITS.        (* limit[] of __print_time_unit, generated from utils/debug.c *)
 Fixpoint fmt_loop (lims : list N) (idx delta : N) : N * N * N :=
   match lims with
   | [] => (idx, delta, 0)
